@@ -255,11 +255,20 @@ Proof.
       | _ => d_lex1 h end).
 Qed.
 
+(* the capacity test leaves the state alone and never produces OutOfFuel *)
+Lemma cap_string_mf : forall (P : Prop) s r, mf3 P s r -> mf3 P s (cap_string r).
+Proof.
+  intros P s [[e a] s'] [H1 H2]. unfold mf3, cap_string in *. cbn [fst snd] in *.
+  destruct e; try (split; assumption).
+  destruct (too_long a); cbn [fst snd]; split; try assumption. intros _; discriminate.
+Qed.
+
 Lemma parse_quoted_string_mf : forall cf fuel s,
   mf3 (meas s < fuel)%nat s (parse_quoted_string cf fuel s).
 Proof.
   intros cf fuel s. unfold parse_quoted_string.
   mf_go ltac:(fun h => lazymatch h with
+      | cap_string _ => apply cap_string_mf
       | quoted_loop cf fuel ?st ?c ?a ?X =>
           pose proof (quoted_loop_mf cf fuel st c a X);
           destruct (quoted_loop cf fuel st c a X) as [[? ?] ?]
@@ -283,6 +292,7 @@ Lemma parse_non_quoted_string_mf : forall fuel s,
 Proof.
   intros fuel s. unfold parse_non_quoted_string.
   mf_go ltac:(fun h => lazymatch h with
+      | cap_string _ => apply cap_string_mf
       | non_quoted_loop fuel ?a ?c ?X =>
           pose proof (non_quoted_loop_mf fuel a c X);
           destruct (non_quoted_loop fuel a c X) as [[? ?] ?]
@@ -774,11 +784,20 @@ Proof.
       | _ => s_lex1 h end).
 Qed.
 
+Lemma cap_string_safe : forall (Q : ps -> Prop) r,
+  safe3 (fun _ => Q) r -> safe3 (fun _ => Q) (cap_string r).
+Proof.
+  intros Q [[e a] s'] [H1 H2]. unfold safe3, cap_string in *. cbn [fst snd] in *.
+  destruct e; try (split; assumption).
+  destruct (too_long a); cbn [fst snd]; split; try assumption. intro X; discriminate X.
+Qed.
+
 Lemma parse_quoted_string_safe : forall cf fuel s,
   good s -> cur s <> None -> safe3 (fun _ => good) (parse_quoted_string cf fuel s).
 Proof.
   intros cf fuel s G C. unfold parse_quoted_string.
   sf_go ltac:(fun h => lazymatch h with
+      | cap_string _ => apply cap_string_safe
       | quoted_loop cf fuel ?st ?c ?a ?X =>
           let A := fresh "A" in let B := fresh "B" in
           assert (A : alive X) by sauto; assert (B : st <> 0) by sauto;
@@ -804,6 +823,7 @@ Lemma parse_non_quoted_string_safe : forall fuel s,
 Proof.
   intros fuel s A. unfold parse_non_quoted_string.
   sf_go ltac:(fun h => lazymatch h with
+      | cap_string _ => apply cap_string_safe
       | non_quoted_loop fuel ?a ?c ?X =>
           let A := fresh "A" in assert (A : good X) by sauto;
           pose proof (non_quoted_loop_safe fuel a c X A);
